@@ -53,6 +53,9 @@ class Interp:
     def __init__(self, gen: int) -> None:
         self.gen = gen
         self.rig = SockRig(gen)
+        self.hook = {"up": [], "down": []}   # messages a connection subscriber sends when the link comes up / goes down
+        self.hook_errors: list = []
+        self.rig.sock.subscribe_on_connection_changed(self._on_conn)
         self.rig.open()
         self.ops: list = [["gen", gen]]
         self.accepted: list = []  # dict(exp=(to,frm,pid|None,mtype,data), t, due, expiry)
@@ -86,6 +89,44 @@ class Interp:
         now = self.rig.loop.time()
         rem = [a["expiry"] - now for a in self.pending()]
         return min(rem) if rem else float("inf")
+
+    def _item(self, kind, params, pol, hdr, connected):
+        """Registers one submission; returns the coroutine to await."""
+        reg = registry(self.gen)
+        now = self.rig.loop.time()
+        msg = sockops.build(self.gen, kind, params)
+        mtype, data = sockops.expect(self.gen, kind, params)
+        policy = sockops.policy_of(pol)
+        if hdr is None:
+            to = 0x90 if mtype == 0x1F else 0x80
+            exp = (to, 0xB0, None, mtype, data)
+            coro = self.rig.sock.send(msg, policy)
+        else:
+            to, frm, pid = hdr
+            exp = (to, frm, pid, mtype, data)
+            size = reg.get_encoder(msg.message_id).size(msg)
+            coro = self.rig.sock.send_with_header(make_header(self.gen, to, frm, pid, msg.message_id, size), msg, policy)
+        self.accepted.append({"exp": exp, "t": now, "connected": connected, "expiry": now + policy.max_lifetime,
+                              "kind": kind, "logpos": len(self.rig.net.log)})
+        return coro
+
+    async def _on_conn(self, *, connected: bool) -> None:
+        """A connection subscriber that submits messages from inside the notification (as the API layers do)."""
+        batch = self.hook["up" if connected else "down"]
+        if not batch:
+            return
+        now = self.rig.loop.time()
+        if connected:
+            # the backlog accepted during the outage is still held at this point (flushed after the notification)
+            held = sum(1 for a in self.accepted if not a["connected"] and self.due_of(a) == (now, False))
+        else:
+            held = len(self.pending())
+        for kind, params, pol, hdr in batch[:max(0, 10 - held)]:
+            self.nt.add("sent-from-connection-subscriber:" + ("up" if connected else "down"))
+            try:
+                await self._item(kind, params, pol, hdr, connected)
+            except Exception as exc:  # noqa: BLE001 - reported by check()
+                self.hook_errors.append(repr(exc))
 
     # ------------------------------------------------------------------ operations
     def do(self, op):
@@ -169,6 +210,9 @@ class Interp:
     def op_gen(self, gen):  # replay marker
         pass
 
+    def op_hook(self, up, down):
+        self.hook = {"up": up, "down": down}
+
     # ------------------------------------------------------------------ oracle
     def due_of(self, a):
         """(due instant | None, dead).  A message accepted while the link was down is due at the instant the next
@@ -182,6 +226,8 @@ class Interp:
 
     def check(self):
         net = self.rig.net
+        if self.hook_errors:
+            self.bad("send-raised", f"send from a connection subscriber raised {self.hook_errors[0]}")
         frames = []  # (frame, t_first_byte, cid)
         for tr in net.conns:
             wire = tr.tx_bytes()
@@ -349,6 +395,13 @@ def make_machine(gen: int, stats: Stats):
                 self._do(["send", [it]])
             self._do(["advance_free", 3.0])
 
+        @rule(up=st.lists(_send_item(gen), max_size=2), down=st.lists(_send_item(gen), max_size=3))
+        def connection_subscriber(self, up, down):
+            """From now on a connection subscriber submits `up` whenever the link comes up and `down` (long-lived)
+            whenever it goes down."""
+            down = [[kk, p, ("idem" if isinstance(pol, str) else [pol[0], 30.0]), h] for kk, p, pol, h in down]
+            self._do(["hook", up, down])
+
         @rule()
         def pause(self):
             self._do(["pause"])
@@ -423,7 +476,8 @@ def shards(tier: str):
 
 
 def floors(tier: str):
-    return {"multi-pending-outage": 30, "same-instant-batch": 60, "wrap-256": 2, "expired-among-pending": 30}
+    return {"multi-pending-outage": 30, "same-instant-batch": 60, "wrap-256": 2, "expired-among-pending": 30,
+            "sent-from-connection-subscriber:up": 40, "sent-from-connection-subscriber:down": 40}
 
 
 def run_shard(spec, seed: int, tier: str):
